@@ -185,6 +185,7 @@ func (r *distrRunner) mintParams(viaTx bool, denom string, reward *big.Int, id s
 	}
 	r.mintDenom, r.h.reward, r.h.mintID = wantD, wantR, wantI
 	r.paramUpdates++
+	r.paramsFollowStore("an exomint MsgUpdateParams (" + path + ")")
 	return err == nil
 }
 
